@@ -37,4 +37,14 @@ claimed.update({
  "C17": ("forbidden-construct and global-write scan over package and reachable dependency, strict-weak-order tables of comparison closures, sign-mirror of fill-rule arms (AST) and tables",
          "Decides sentence 1 (bit-identical repeatability) completely modulo the standard library, that sort comparators are strict weak orders, that Negative arms are sign mirrors of Positive arms and that the contribution table ignores polytype for the symmetric clip types. Permutation/rotation/lattice invariance of the region is not decided.", "DESIGN.md §4 C17", NOTE),
 })
+claimed.update({
+ "C03": ("explicit-panic inventory with premise checks, interval analysis of make sizes, divisor scan, constant-index preconditions pushed to call sites, must-store dataflow for the success flag, ring-walk polarity",
+         "Decides that the only explicit panics are the reviewed ones, that no make() size can be negative, no integer divisor can be zero, constant indices into path parameters are guarded (by the function or every caller), the success flag is assigned on every path and ring walks exit on cursor==start. Nil-safety of the linked structures and termination of invariant-dependent scans are not decided.", "DESIGN.md §4 C03", NOTE),
+ "C06": ("AST mirror rewriting of sibling case arms, SCCP dead-mechanism, abstract exploration of the fast paths, bounds-accumulator exploration",
+         "Decides that the location state machine's Right/Bottom/Top arms are mirror images of their siblings, that the corner-adding calls are live, that the inside/outside fast paths use the current path's bounds and return the input path itself, and that bounds start at the right extremes. The crossing-history logic is not decided.", "DESIGN.md §4 C06", NOTE),
+ "C15": ("provenance of appended values, abstract exploration of the scan loops, loop-invariance of scan anchors, predicate exactness (decision table + width)",
+         "Decides that results are built from input vertices only, that the main scan drops a vertex exactly under isCollinear(last kept, path[i], path[i+1]), that wrap-around scans use fixed anchors, that open ends are kept, and that the collinearity predicate is exact (modulo the recorded triSign finding). Global clauses (no three collinear remain, idempotence) are not decided.", "DESIGN.md §4 C15", NOTE),
+ "C16": ("abstract exploration of the result pass and refresh guards, sibling agreement by alpha-normalised AST comparison, same-axis-difference provenance, width analysis",
+         "Decides the sub-sequence construction, the open-end/closed-wrap refresh guards, 64/D sibling agreement, exact translation invariance of the distance and exactness of the integer distance's cross product at 2^29. The greedy order and the 'none within epsilon remains' clause are not decided.", "DESIGN.md §4 C16", NOTE),
+})
 not_applicable = {}
